@@ -57,7 +57,9 @@ def sl_specs(draw, tier):
     return {"crystal": cs, "key": draw(keys), "n": draw(st.sampled_from([[1, 1, 1], [2, 1, 1], [1, 2, 1], [2, 2, 1]])),
             "smat": draw(st.one_of(st.none(), supercell_matrices(max_det=4))),  # None: the diagonal matrix n
             "pmat": draw(st.sampled_from(["none", "auto"])), "labels": draw(st.booleans()), "magmom": draw(st.sampled_from(["none", "none", "collinear"])),
-            "dataset": draw(st.sampled_from(["type1", "type2", "type2_energies", "none", "type1_noforces", "type2_noforces"])),
+            "dataset": draw(st.sampled_from(["type1", "type1_energies", "type2", "type2_energies", "none", "type1_noforces", "type2_noforces"])),
+            # energies as absolute numbers, or relative to the first supercell (then the first one is exactly 0.0)
+            "energy_ref": draw(st.sampled_from(["absolute", "first_supercell"])),
             "fc": draw(st.sampled_from(["full", "compact", "none"])), "nac": draw(st.sampled_from(["none", "wang", "gonze"])),
             "calc": draw(st.sampled_from(CALCS)), "compression": draw(st.sampled_from([False, False, "xz", True])),
             "settings": draw(st.sampled_from([None, {"force_constants": True}, {"force_constants": False}, {"force_sets": False},
@@ -102,7 +104,7 @@ def build_phonopy(spec):
         ph.generate_displacements(distance=0.03)
     elif spec["dataset"] == "type2_noforces":
         ph.generate_displacements(number_of_snapshots=3, random_seed=int(spec["key"]) % 1000, distance=0.03)
-    elif spec["dataset"] == "type1":
+    elif spec["dataset"] in ("type1", "type1_energies"):
         ph.generate_displacements(distance=0.03)
         forces = []
         for d in ph.dataset["first_atoms"]:
@@ -110,11 +112,19 @@ def build_phonopy(spec):
             u[d["number"]] = d["displacement"]
             forces.append(-np.einsum("ijab,jb->ia", fc, u))
         ph.forces = forces
+        if spec["dataset"] == "type1_energies":
+            en = rng.normal(size=len(forces)) * spec["mag"]
+            if spec.get("energy_ref") == "first_supercell":
+                en = en - en[0]
+            ph.supercell_energies = en.tolist()
     elif spec["dataset"].startswith("type2"):
         ph.generate_displacements(number_of_snapshots=3, random_seed=int(spec["key"]) % 1000, distance=0.03)
         ph.forces = [-np.einsum("ijab,jb->ia", fc, u) for u in ph.dataset["displacements"]]
         if spec["dataset"].endswith("energies"):
-            ph.supercell_energies = (rng.normal(size=3) * spec["mag"]).tolist()
+            en = rng.normal(size=3) * spec["mag"]
+            if spec.get("energy_ref") == "first_supercell":
+                en = en - en[0]
+            ph.supercell_energies = en.tolist()
     if spec["fc"] != "none":
         ph.force_constants = np.array(fc[ph.primitive.p2s_map], order="C") if spec["fc"] == "compact" else fc.copy()
     if spec["nac"] != "none":
@@ -223,6 +233,10 @@ def run_save_load(spec):
                         e2 = ph2.dataset.get("supercell_energies")
                         if e2 is None or not close(e2, ph.dataset["supercell_energies"], 0.5e-15)[0]:
                             errs.append("supercell energies lost or changed on reload")
+                    e1a, e2a = ph.supercell_energies, ph2.supercell_energies
+                    etol = 0.5e-8 if "first_atoms" in ph.dataset else 0.5e-15  # type 1: %.8f per entry; type 2: %.16f
+                    if e1a is not None and (e2a is None or np.shape(e2a) != np.shape(e1a) or not close(e2a, e1a, etol)[0]):
+                        errs.append("supercell energies %s reloaded as %s" % (np.asarray(e1a).tolist(), None if e2a is None else np.asarray(e2a).tolist()))
         # force constants
         fc_written = s.get("force_constants") is True or (s.get("force_constants") is None and ph.force_constants is not None and
                                                           not (want_forces and ph.dataset is not None and s.get("force_sets", True)))
